@@ -227,7 +227,14 @@ where
             Value::Float(f) => {
                 // A float with a zero fraction displays without a decimal
                 // point which would read back as an integer.
-                let rendered = format!("{}", f.val);
+                let rendered = if f.val.is_infinite() {
+                    // A literal too large for a float reads as infinity,
+                    // which has no spelling of its own: "inf" would read back
+                    // as a name. Write a literal that is too large again.
+                    format!("1{}", "0".repeat(309))
+                } else {
+                    format!("{}", f.val)
+                };
                 if rendered.contains('.') {
                     write!(self.w, "{}", rendered)?
                 } else {
